@@ -124,7 +124,8 @@ pub fn gen_untyped(u: &mut Chooser, depth: usize, p: &Pool) -> E {
         20 | 21 | 22 => {
             let m = *u.pick(&[Mac::All, Mac::Exists, Mac::ExistsOne, Mac::ExistsOneCamel, Mac::Map, Mac::Map, Mac::Filter]);
             let range = g(u);
-            let var = u.pick(&["x", "y", "i0", "s0"]).to_string();
+            // the iteration variable: a fresh-looking name, or any name of the pool (which may also name a function)
+            let var = if u.flip() { u.pick(&["x", "y", "i0", "s0"]).to_string() } else { u.pick(&p.vars).trim_start_matches('.').to_string() };
             let body = if m == Mac::Map && u.flip() { vec![g(u), g(u)] } else { vec![g(u)] };
             E::Macro(m, b(range), var, body)
         }
